@@ -44,7 +44,7 @@ pub fn judge_exec(l: &Layout, strategy: &Sched, ex: &ExecOut) -> Result<(bool, u
     // non-trivial: somebody ran a whole operation while a peer was frozen strictly inside an
     // operation that had already made a mutating call
     let nontrivial = ex.hist.iter().any(|a| {
-        let first_mut = ex.events.iter().filter(|e| e.tid == a.tid && e.op == a.op as u32 && matches!(e.call, "rename" | "link" | "unlink" | "mkdir" | "chmod" | "fchmod" | "futimens" | "write")).map(|e| e.seq).min();
+        let first_mut = ex.events.iter().filter(|e| e.tid == a.tid && e.op == a.op as u32 && matches!(e.call, "rename" | "link" | "unlink" | "mkdir" | "chmod" | "fchmod" | "futimens" | "utimensat" | "write")).map(|e| e.seq).min();
         match first_mut {
             Some(m) => ex.hist.iter().any(|b| b.tid != a.tid && b.call_seq > m && b.ret_seq < a.ret_seq),
             None => false,
